@@ -9,6 +9,8 @@ import (
 )
 
 type Env struct {
+	assuming bool // the expression being evaluated will be assumed (not proved)
+	guard    *Term
 	ex   *Exec
 	cur  *State
 	old  *State
@@ -165,6 +167,20 @@ func (e *Env) eval(x *SExpr) Value {
 		}
 		return r
 	case "binop":
+		if e.assuming && (x.Name == "==>" ) {
+			// keep track of the guard under which nested each() facts hold
+			c := e.boolTerm(x.Args[0])
+			n := *e
+			if e.guard == nil {
+				n.guard = c
+			} else {
+				n.guard = And(e.guard, c)
+			}
+			return specBool(Implies(c, n.boolTerm(x.Args[1])))
+		}
+		if e.assuming && x.Name == "&&" {
+			return specBool(And(e.boolTerm(x.Args[0]), e.boolTerm(x.Args[1])))
+		}
 		return e.evalBin(x)
 	case "forall":
 		vars := map[string]Value{}
@@ -418,6 +434,28 @@ func (e *Env) evalCall(x *SExpr) Value {
 		}
 	}
 	switch name {
+	case "each": // each(slice, x, pred): every element x of slice satisfies pred
+		need(3)
+		sv := arg(0)
+		sl, ok := sv.T.Underlying().(*types.Slice)
+		if !ok {
+			sfail("each over non-slice")
+		}
+		vn := x.Args[1].Name
+		if e.assuming {
+			g := e.guard
+			if g == nil {
+				g = tTrue
+			}
+			cp := *e
+			cp.assuming = false
+			e.live.Each = append(e.live.Each, &EachFact{Arr: sv.Arr(), Off: sv.Off(), Len: sv.Len(), ElemKey: typeKey(sl.Elem()), Var: vn, Pred: x.Args[2], Env: &cp, Guard: g})
+		}
+		e.ex.fresh++
+		j := Var(fmt.Sprintf("q!each!%d", e.ex.fresh), SInt)
+		elem := e.cur.loadElem(sv.Arr(), Add(sv.Off(), j), sl.Elem())
+		body := e.with(map[string]Value{vn: elem}).boolTerm(x.Args[2])
+		return specBool(Forall([]*Term{j}, Implies(And(Le(Int(0), j), Lt(j, sv.Len())), body)))
 	case "old":
 		need(1)
 		n := *e
